@@ -251,14 +251,16 @@ Proof.
   pose proof (base_ctor_fixed u1 u2 u3 u4 u5 u6 u7 mat mp ads temp meta _ s Hd Hmv Hnone Hu1 Hrel Hlab Hads Htemp) as BC.
   destruct b as [|pk' lk' rows cl cp|br m].
   - (* BaseIsotherm *)
-    unfold import, fixed, tail, labels, unit_params, clear_caches. cbn [i_units i_body map fst combine mat_val i_mprops i_mat i_ads i_temp]. rewrite <- Emv.
+    unfold import, fixed, tail, labels, unit_params, clear_caches. unfold mat_val; cbn [i_units i_body map fst combine i_mprops i_mat i_ads i_temp]. rewrite <- Emv.
     repeat (first [mid_step Hd | meta_step Hd | app_conc meta | conc_step | rewrite app_nil_r | red_step]).
     exact BC.
   - (* PointIsotherm *)
     destruct K as [-> ->]. destruct Hb as (r0 & rest & -> & Hsame & Hpk & Hlk & Hnb & _ & Hbr).
-    unfold import, fixed, tail, labels, unit_params, clear_caches. cbn [i_units i_body map fst combine mat_val i_mprops i_mat i_ads i_temp]. rewrite <- Emv.
+    unfold import, fixed, tail, labels, unit_params, clear_caches. unfold mat_val; cbn [i_units i_body fst combine i_mprops i_mat i_ads i_temp]. rewrite <- Emv.
+    remember (VList (map row_doc (r0 :: rest))) as dv eqn:Edv.
+    cbn [map fst combine].
     repeat (first [mid_step Hd | meta_step Hd | app_conc meta | conc_step | rewrite app_nil_r | red_step]).
-    change (row_doc r0 :: map row_doc rest) with (map row_doc (r0 :: rest)).
+    rewrite Edv. cbn [truthy map]. change (row_doc r0 :: map row_doc rest) with (map row_doc (r0 :: rest)).
     unfold import_point. rewrite rows_rt by exact Hnb. cbn [bind]. rewrite Hsame. cbn [negb].
     repeat (first [meta_step Hd | conc_step]).
     rewrite BC. cbn [bind]. rewrite Hpk, Hlk. cbn [andb negb].
@@ -268,13 +270,119 @@ Proof.
     + destruct (existsb r_des (r0 :: rest)); [reflexivity|].
       cbn [i_units i_mat i_mprops i_ads i_temp i_meta]. unfold pressures in Hps. rewrite Hps. rewrite <- Hg, remark_rt. reflexivity.
   - (* ModelIsotherm *)
-    destruct Hb as (Hnames & Hpn & _).
-    unfold import, fixed, tail, labels, unit_params, clear_caches. cbn [i_units i_body map fst combine mat_val i_mprops i_mat i_ads i_temp]. rewrite <- Emv.
+    destruct m as [mn mr mps mpr mlr]. destruct Hb as (Hnames & Hpn & _). cbn [md_name md_params] in *.
+    unfold import, fixed, tail, labels, unit_params, clear_caches. unfold mat_val; cbn [i_units i_body map fst combine i_mprops i_mat i_ads i_temp]. rewrite <- Emv.
+    remember (model_doc (mkModel mn mr mps mpr mlr)) as dv eqn:Edv.
     repeat (first [mid_step Hd | meta_step Hd | app_conc meta | conc_step | rewrite app_nil_r | red_step]).
-    unfold import_model, model_of, model_doc.
+    rewrite Edv. unfold import_model, model_of, model_doc. cbn [truthy].
     repeat (first [meta_step Hd | conc_step | red_step]).
     rewrite Hnames. rewrite params_rt by exact Hpn. cbn [bind].
     repeat (first [meta_step Hd | conc_step | red_step]).
-    rewrite BC. cbn [bind i_units i_mat i_mprops i_ads i_temp i_meta]. destruct m; reflexivity.
+    rewrite BC. cbn [bind i_units i_mat i_mprops i_ads i_temp i_meta]. reflexivity.
+Qed.
+
+(* the identifier-relevant document does not see the interpolator caches *)
+Lemma export_doc_ignores_caches i : length (i_units i) = length unit_params -> export_doc (clear_caches i) = export_doc i.
+Proof.
+  intros L. destruct i as [us mat mp ads temp meta b]. cbn [i_units] in L.
+  destruct us as [|u1 [|u2 [|u3 [|u4 [|u5 [|u6 [|u7 [|u8 r]]]]]]]]; try discriminate L.
+  destruct b; reflexivity.
+Qed.
+
+Lemma row_doc_ser r : forallb (fun kv => serialisable (snd kv)) (r_cells r) = true -> serialisable (row_doc r) = true.
+Proof.
+  destruct r as [c d]. unfold row_doc. cbn [r_cells r_des serialisable]. intros H. destruct d.
+  - induction c as [|[k v] c IH]; cbn [dict_set forallb snd serialisable]; auto. cbn [forallb snd] in H. apply andb_true_iff in H as [H1 H2].
+    destruct (String.eqb "branch" k); cbn [forallb snd serialisable]; rewrite ?H2, ?IH; auto. rewrite H1. auto.
+  - induction c as [|[k v] c IH]; cbn [ddel forallb]; auto. cbn [forallb snd] in H. apply andb_true_iff in H as [H1 H2].
+    destruct (String.eqb "branch" k); cbn [forallb snd]; rewrite ?IH; auto. rewrite H1. auto.
+Qed.
+
+Theorem export_ok i : wf i -> export i = Ok (VDict (export_doc i)).
+Proof.
+  intros W. unfold export. rewrite (export_doc_shape i W). cbn [serialisable]. rewrite !forallb_app.
+  destruct (units7 i W) as (u1 & u2 & u3 & u4 & u5 & u6 & u7 & Hu).
+  destruct W as [_ Hus _ _ _ Htemp _ _ Hms Hmn Hmd Hmps Hb].
+  destruct i as [us mat mp ads temp meta b]. cbn [i_units i_mat i_mprops i_ads i_temp i_meta i_body] in *. subst us.
+  rewrite Hms. cbn [forallb] in Hus. repeat (apply andb_true_iff in Hus as [?H Hus]).
+  assert (Hmat : serialisable (mat_val' mat mp) = true).
+  { unfold mat_val'. destruct mp as [|kv r]; auto. set (p := kv :: r) in *. rewrite dict_update_disjoint; auto.
+    rewrite forallb_forall. intros k Hk. cbn [keys map fst mem]. rewrite orb_false_r.
+    destruct (String.eqb k "name") eqn:E; auto. apply String.eqb_eq in E. subst k. apply mem_In in Hk. rewrite Hk in Hmn. discriminate. }
+  assert (Ht : serialisable temp = true) by (destruct temp; auto; discriminate).
+  destruct b as [|pk lk rows cl cp|br m]; unfold fixed, tail, labels, unit_params, mat_val;
+    cbn [i_units i_body i_mat i_mprops i_ads i_temp map fst combine app forallb snd serialisable];
+    rewrite ?H, ?H0, ?H1, ?H2, ?H3, ?H4, ?H5, ?Hmat, ?Ht; cbn [andb]; auto.
+  - destruct Hb as (r0 & rest & -> & _ & _ & _ & _ & Hser & _).
+    assert (R : forallb serialisable (map row_doc (r0 :: rest)) = true).
+    { rewrite forallb_forall in *. intros x Hx. apply in_map_iff in Hx as (r & <- & Hr). apply row_doc_ser. apply Hser. exact Hr. }
+    rewrite R. reflexivity.
+  - destruct m as [mn mr mps mpr mlr]. destruct Hb as (_ & _ & Hbr & Hr & Hp & Hpr & Hlr). cbn [md_rmse md_params md_prange md_lrange model_doc serialisable forallb snd] in *.
+    rewrite Hbr, Hr, Hp, Hpr, Hlr. reflexivity.
+Qed.
+
+(* C06 on the model: export, then import, gives back the same isotherm (caches reset), and exporting that again gives the same document *)
+Theorem roundtrip i pk lk : wf i -> body_keys i pk lk ->
+  exists doc, export i = Ok doc /\
+              import ads_canon labels_ok pk lk doc = Ok (clear_caches i) /\
+              export_doc (clear_caches i) = export_doc i.
+Proof.
+  intros W K. exists (VDict (export_doc i)). split; [apply export_ok; auto|]. split; [apply import_export_doc; auto|].
+  apply export_doc_ignores_caches. apply (wf_len i W).
 Qed.
 End RT.
+
+(* ------------------------------------------------------------------ with the json library as an oracle *)
+Theorem json_roundtrip_oracle (ads_canon : string -> string) (labels_ok : dict -> bool)
+        (dumps : pyval -> string) (loads : string -> option pyval) :
+  (forall v, serialisable v = true -> loads (dumps v) = Some (jnorm v)) ->
+  forall i pk lk, wf ads_canon labels_ok i -> body_keys i pk lk -> tuple_free (VDict (export_doc i)) = true ->
+  exists doc doc', export i = Ok doc /\ loads (dumps doc) = Some doc' /\
+    import ads_canon labels_ok pk lk doc' = Ok (clear_caches i) /\
+    export (clear_caches i) = Ok doc /\ loads (dumps doc) = Some doc.
+Proof.
+  intros HJ i pk lk W K TF. pose proof (export_ok ads_canon labels_ok i W) as E.
+  exists (VDict (export_doc i)), (VDict (export_doc i)).
+  assert (S : serialisable (VDict (export_doc i)) = true).
+  { unfold export in E. destruct (serialisable (VDict (export_doc i))); auto. discriminate. }
+  rewrite (HJ _ S), (jnorm_tuple_free _ TF).
+  repeat split; auto.
+  - apply import_export_doc; auto.
+  - unfold export. rewrite (export_doc_ignores_caches i (wf_len _ _ i W)). exact E.
+Qed.
+
+Lemma export_shape_ok ads_canon labels_ok i : wf ads_canon labels_ok i -> export i = Ok (VDict (fixed i ++ i_meta i ++ tail i)).
+Proof. intros H. rewrite <- (export_doc_shape ads_canon labels_ok i H). apply (export_ok ads_canon labels_ok i H). Qed.
+
+(* ------------------------------------------------------------------ witnesses *)
+Definition w_units : list pyval := [VStr "absolute"; VStr "bar"; VStr "mass"; VStr "g"; VStr "molar"; VStr "mmol"; VStr "K"].
+Definition w_row (p l : Q) (d : bool) : row := mkRow [("pressure", VFloat p); ("loading", VFloat l)] d.
+Definition w_meta : dict := [("operator", VStr "12"); ("batch", VInt (-5)); ("ok", VBool true); ("tags", VList [VInt 1; VStr "a"])].
+(* hysteresis loop with a desorption mark, metadata of several types, a material with properties *)
+Definition w_iso : iso :=
+  mkIso w_units "m1" [("density", VFloat (21 # 10))] "nitrogen" (VFloat 77) w_meta
+        (BPoint "pressure" "loading" [w_row 1 1 false; w_row 3 2 false; w_row 2 (3 # 2) true] VNone VNone).
+(* the user marked every point as adsorption although the pressure maximum is not last *)
+Definition w_allads : iso :=
+  mkIso w_units "m1" [] "nitrogen" (VFloat 77) []
+        (BPoint "pressure" "loading" [w_row 1 1 false; w_row 3 2 false; w_row 2 (3 # 2) false] VNone VNone).
+Definition w_model : iso :=
+  mkIso w_units "m1" [] "nitrogen" (VFloat 77) w_meta
+        (BModel (VStr "ads") (mkModel "Langmuir" (VFloat (1 # 100)) [("K", VFloat 2); ("n_m", VFloat 5)] (VList [VFloat 0; VFloat 1]) (VList [VFloat 0; VFloat 4]))).
+
+Lemma w_iso_wf : wf (fun s => s) (fun _ => true) w_iso.
+Proof.
+  constructor; try reflexivity.
+  - exists "absolute". split; [reflexivity|discriminate].
+  - cbn. exists (w_row 1 1 false), [w_row 3 2 false; w_row 2 (3 # 2) true]. repeat split; try reflexivity. left. reflexivity.
+Qed.
+Lemma w_model_wf : wf (fun s => s) (fun _ => true) w_model.
+Proof.
+  constructor; try reflexivity.
+  - exists "absolute". split; [reflexivity|discriminate].
+  - cbn. repeat split; reflexivity.
+Qed.
+Lemma w_allads_reguessed :
+  exists doc i', export w_allads = Ok doc /\ import (fun s => s) (fun _ => true) "pressure" "loading" (jnorm doc) = Ok i' /\
+    i_body i' = BPoint "pressure" "loading" [w_row 1 1 false; w_row 3 2 false; w_row 2 (3 # 2) true] VNone VNone.
+Proof. eexists. eexists. split; [vm_compute; reflexivity|]. split; vm_compute; reflexivity. Qed.
